@@ -30,6 +30,10 @@ CHECKS = {
    "stateless schedule exploration (all cooperative schedules + syscall-tap preemption, deviation bound 1) of mutator programs in every subshell kind on the real shell, oracle = full-state snapshots taken inside the shell",
    "30 state mutators (assign, unset, export, readonly, typeset, function define/undefine/redefine, alias/unalias/global alias, six `set` options, set --, shift, cd, umask, trap set/reset/ignore/EXIT, exec redirections opening/closing/appending, ulimit), singly and in ordered pairs (quick: a 1/5 slice of pairs), are placed inside each of `( )`, `$( )`, first and last element of a pipeline and an asynchronous list, after each of 3 preludes that put the parent into a non-initial state; every program runs under every cooperative schedule of its processes and (single mutators; thorough: all) with preemption at every simulated syscall at deviation bound 1. A snapshot probe serialises variables with attributes, positional parameters, functions, aliases, options, traps, installed dispositions, signal mask, umask, cwd and the descriptor table by open-file-description identity. Oracle: the parent's snapshot is identical before and after (except $?, $!, jobs and the internal SIGCHLD handler); the child's snapshot on entry equals the parent's except command traps reset to default (ignored stay ignored, INT/QUIT ignored in async lists); the body ran in another process.",
    "Snapshot probe trusted; descriptor table compared only for `( )` on entry (other kinds legitimately replace stdin/stdout)."),
+ "C02": ("exploration", "DESIGN.md §3 C02",
+   "bounded-exhaustive enumeration of programs (all ASTs up to a size bound x surface-syntax variants) executed by the real shell and compared with a reference interpreter; exhaustive command-search table",
+   "Every AST of at most 4 (quick, 12k programs / 50k runs) or 5 (thorough, 223k programs / 890k runs) nodes over the core command language (probes with status 0/1, sequential lists, &&/|| chains, !, two-stage pipelines, brace groups, subshells, if/else, while/until, for with 0/2 items, case with 1-2 arms, function definition+call, break/continue [n], return [n], exit [n]) is printed in 16 (size <= 3) or 4 orthogonal surface variants (newline vs `;`, extra blanks, comments, backslash-newline) and executed to completion by the whole shell; the per-process sequence of markers with the $? each saw, the final exit status and stderr emptiness must equal the reference interpreter refsh for every variant (so variants also agree with each other). Cases POSIX leaves unspecified are skipped and counted. The command-search order is checked on the full table builtin kind {none, special, mandatory, elective, substitutive} x function x executable in PATH dir 1 / dir 2 (40 cases).",
+   "refsh is trusted (cross-checked against dash/bash during development); pipelines run under the default schedule here (C13 covers schedules)."),
 }
 
 NOT_YET = {
